@@ -524,6 +524,12 @@ class CallMixin:
                     self.check(st, z3.Select(dom, k.t), "KeyError(dict.pop)", node)
                     writeback(SV(ty.mk(z3.Store(dom, k.t, False), val), ty))
                     return SV(z3.Select(val, k.t), ty.val)
+            if meth == "setdefault" and len(node.args) == 2:
+                k = self.ev(node.args[0], st, ty.key)
+                d = self.coerce(self.ev(node.args[1], st), ty.val)
+                has = z3.Select(dom, k.t)
+                writeback(SV(ty.mk(z3.Store(dom, k.t, True), z3.If(has, val, z3.Store(val, k.t, d.t))), ty))
+                return SV(z3.If(has, z3.Select(val, k.t), d.t), ty.val)
             if meth == "copy":
                 return base
         if isinstance(ty, T.Rec) and ty.name == "slice" and meth == "indices":
